@@ -188,7 +188,7 @@ def sharing(ctx):
     R = 'C17.sharing'
     fa = ctx.fa(f'{CR}.create')
     guard = V('append_scool')
-    sts = [e for e in events(fa, 'store_sub') if (guard, True) in e.guards and e.key[0] == 'c' and isinstance(e.key[1], str)
+    sts = [e for e in events(fa, 'store_sub') if e.under(guard) and e.key[0] == 'c' and isinstance(e.key[1], str)
            and e.key[1] in ('chroms', 'bins/chrom', 'bins/start', 'bins/end')]
     got = {e.key[1]: e for e in sts}
     for k in ('chroms', 'bins/chrom', 'bins/start', 'bins/end'):
@@ -197,13 +197,13 @@ def sharing(ctx):
         ok = e is not None and e.value[0] == 'sub' and e.value[2] == C(k)
         ctx.check(ok, R, k, ctx.where(fa, e), found=e.value if e else None, expected=f'<cell group>["{k}"] = <root file>["{k}"]  (object assignment = hard link)',
                   reason='the common bin table is stored once and shared by all cells')
-    puts = [e for e in calls(fa, 'cooler.core._tableops.put') if (guard, True) in e.guards]
+    puts = [e for e in calls(fa, 'cooler.core._tableops.put') if e.under(guard)]
     ok = len(puts) == 1 and puts[0].args[1][0] == 'sub'
     ctx.check(ok, R, 'per-cell-columns', ctx.where(fa, puts[0] if puts else None), found=[T.show(e.term)[:120] for e in puts],
               expected='put(<cell>/bins, bins[<columns other than chrom/start/end>])', reason='per-cell extra bin columns are kept per cell')
     if ok:
         cols = puts[0].args[1][2]
-        rm = [e for e in calls(fa, method='remove') if (guard, True) in e.guards]
+        rm = [e for e in calls(fa, method='remove') if e.under(guard)]
         Ls = [fa.loops[e.loops[-1]].iter for e in rm if e.loops]
         ctx.check(bool(Ls) and Ls[0] in (T.lst([C('chrom'), C('start'), C('end')]),), R, 'per-cell-columns.excluded', ctx.where(fa, rm[0] if rm else None),
                   found=[T.show(x) for x in Ls], expected="the three shared columns ['chrom', 'start', 'end'] are removed from the per-cell column list")
